@@ -215,3 +215,52 @@ Example C01_typeddict_nonvacuous :
   td_unstruct N (fun _ => neutral) hu idh fs [(3, 30); (9, 90); (1, 10)]%N = Ok (Some [(3, 30); (9, 90); (1, 11)]%N)
   /\ td_fast N opt (fun _ => neutral) hs fs (dict_obj [(3, 30); (9, 90); (1, 11)]%N) = Ok (Some [(3, 30); (9, 90); (1, 10)]%N).
 Proof. vm_compute. split; reflexivity. Qed.
+
+(* ---- unions of classes under the default disambiguation (converters.py _gen_attrs_union_structure + disambiguators.py) ----
+   For EVERY list of member classes with distinct identities for which the disambiguator can be created (any member order, any
+   iteration order of the name sets), every member cl and every payload d whose keys are cl's own (at least the keys that may
+   discriminate, at most cl's attributes -- what unstructuring an instance of cl emits, also with defaults omitted): the union
+   hook, with or without None among the members, hands d to cl's OWN structure hook and returns exactly what that hook
+   returns.  So the round trip of a class union is the round trip of the member (C01_roundtrip and the C01_class theorems), and the payload
+   None is structured to None exactly when None is a member.  The guard flag is read off the source by T1. *)
+From V.Model Require Import Disambig UnionStruct.
+From V.Gen Require Import UStructSrc.
+From V.Proofs Require Import DisambigProofs UnionStructProofs SrcObligationsUnion.
+Theorem C01_class_union_member_reaches_its_own_hook :
+  forall (V I : Type) (choose : list N -> list N) (skip : bool) (classes : list dclass) (a : list (N * N)) (fb : option N)
+         (st : N -> list (N * V) -> result I) (has_none : bool) (cl : dclass) (d : list (N * V)),
+    (forall l x, In x (choose l) -> In x l) ->
+    NoDup (ids classes) ->
+    key_loop choose skip (sort_desc classes) (sort_desc classes) [] None = Ok (a, fb) ->
+    In cl classes -> payload_of skip cl (keys d) ->
+    union_structure V I has_none src_union_none_guard_is_identity (dis_keys a fb) st (Some d) = (do i <- st (dc_id cl) d; Ok (Some i)).
+Proof.
+  intros V I choose skip classes a fb st has_none cl d Hch Hnd Hcr Hcl Hp. rewrite src_union_none_guard.
+  exact (union_structure_member V I choose skip Hch classes Hnd a fb Hcr st has_none cl d Hcl Hp).
+Qed.
+Print Assumptions C01_class_union_member_reaches_its_own_hook.
+
+Theorem C01_class_union_none :
+  forall (V I : Type) (dis : list N -> result N) (st : N -> list (N * V) -> result I),
+    union_structure V I true src_union_none_guard_is_identity dis st None = Ok None /\
+    union_structure V I false src_union_none_guard_is_identity dis st None = Err EValue.
+Proof. intros. split; reflexivity. Qed.
+Print Assumptions C01_class_union_none.
+
+(* the guard matters: with a truthiness test the empty payload of a member without attributes would be structured to None *)
+Theorem C01_class_union_truthiness_guard_refuted :
+  exists (classes : list dclass) (a : list (N * N)) (fb : option N) (cl : dclass) (d : list (N * N)),
+    key_loop (fun l => l) true (sort_desc classes) (sort_desc classes) [] None = Ok (a, fb) /\
+    In cl classes /\ payload_of true cl (keys d) /\
+    union_structure N N true false (dis_keys a fb) (fun c _ => Ok c) (Some d) = Ok None.
+Proof. exact union_structure_truthiness_refuted. Qed.
+Print Assumptions C01_class_union_truthiness_guard_refuted.
+
+Example C01_class_union_nonvacuous :
+  let f n := {| df_name := n; df_required := true; df_init := true; df_lit := None |} in
+  let classes := [ {| dc_id := 1; dc_fields := [f 10%N; f 11%N] |}; {| dc_id := 2; dc_fields := [f 20%N; f 11%N] |}; {| dc_id := 3; dc_fields := [] |} ]%N in
+  key_loop (fun l => l) true (sort_desc classes) (sort_desc classes) [] None = Ok ([(10, 1); (20, 2)]%N, Some 3%N) /\
+  union_structure N N true true (dis_keys [(10, 1); (20, 2)]%N (Some 3%N)) (fun c _ => Ok c) (Some [(11, 5); (20, 6)]%N) = Ok (Some 2%N) /\
+  union_structure N N true true (dis_keys [(10, 1); (20, 2)]%N (Some 3%N)) (fun c _ => Ok c) (Some []) = Ok (Some 3%N).
+Proof. vm_compute. repeat split. Qed.
+
